@@ -133,6 +133,18 @@ func main() {
 			}
 			for _, s := range grp {
 				oc := outcomes[s.ID]
+				if len(s.OnlyGOOS) > 0 && cfg.GOOS != "" {
+					applies := false
+					for _, g := range s.OnlyGOOS {
+						if g == cfg.GOOS {
+							applies = true
+						}
+					}
+					if !applies {
+						oc.Configs = append(oc.Configs, cfg.String()+" (skipped: the anchored code is built only for "+strings.Join(s.OnlyGOOS, "/")+")")
+						continue
+					}
+				}
 				r := core.NewReport(s.ID, p)
 				func() {
 					defer func() {
@@ -208,8 +220,17 @@ func main() {
 	}
 
 	if *tier == "thorough" {
+		cache := map[string]map[string]string{}
 		for _, s := range specs {
-			outcomes[s.ID].CrossRef = crossRef(*repo, s.CrossRefPkgs)
+			pk := s.CrossRefPkgs
+			if len(pk) == 0 {
+				pk = s.Patterns
+			}
+			k := strings.Join(pk, " ")
+			if _, ok := cache[k]; !ok {
+				cache[k] = crossRef(*repo, pk)
+			}
+			outcomes[s.ID].CrossRef = cache[k]
 		}
 	}
 
